@@ -329,7 +329,7 @@ fn gen_case(rng: &mut Rng, n: u64) -> Vec<String> {
 #[cfg(feature = "outport-v2")]
 mod pure {
     use super::*;
-    use ractor::port::output::verif_hooks::{dispatch, Item, SubSpec};
+    use ractor::port::output::verif_hooks::{dispatch_dying, Item, SubSpec};
 
     fn kind_ix(k: &str) -> u8 {
         CONVS.iter().position(|c| *c == k).unwrap() as u8
@@ -343,7 +343,15 @@ mod pure {
 
     pub async fn exec(op: &str) -> String {
         let w: Vec<&str> = op.split_whitespace().collect();
-        let ["dispatch", ad, dead, subs, batch] = w.as_slice() else { return "bad-op".into() };
+        // `dispatch ad dead subs batch [id:n]` — with `id:n` subscriber `id` dies after n sends
+        let (ad, dead, subs, batch, dying) = match w.as_slice() {
+            ["dispatch", ad, dead, subs, batch] => (ad, dead, subs, batch, None),
+            ["dispatch", ad, dead, subs, batch, dy] => {
+                let p: Vec<&str> = dy.split(':').collect();
+                (ad, dead, subs, batch, Some((p[0].parse::<u32>().unwrap(), p[1].parse::<usize>().unwrap())))
+            }
+            _ => return "bad-op".into(),
+        };
         let dead: Vec<u32> = if *dead == "-" { vec![] } else { dead.split(',').map(|x| x.parse().unwrap()).collect() };
         let subs: Vec<SubSpec> = if *subs == "-" { vec![] } else { subs.split(',').map(|s| parse_spec(s, &dead)).collect() };
         let batch: Vec<Item> = if *batch == "-" {
@@ -357,7 +365,7 @@ mod pure {
                 })
                 .collect()
         };
-        let (trace, remaining) = dispatch(&subs, &batch, *ad == "true").await;
+        let (trace, remaining) = dispatch_dying(&subs, &batch, *ad == "true", dying).await;
         let t = if trace.is_empty() {
             "-".to_string()
         } else {
@@ -392,7 +400,9 @@ mod pure {
             })
             .collect();
         let j = |v: &[String]| if v.is_empty() { "-".to_string() } else { v.join(",") };
-        format!("dispatch {ad} {} {} {}", show_list(&dead), j(&subs), j(&batch))
+        // sometimes a subscriber dies in the middle of the batch
+        let dying = if rng.chance(1, 3) { format!(" {}:{}", rng.below(nids), rng.below(12)) } else { String::new() };
+        format!("dispatch {ad} {} {} {}{dying}", show_list(&dead), j(&subs), j(&batch))
     }
 
     /// every batch of length ≤ 4 over {data, set(id0), set(id1)} × both flags × dead ⊆ {0}
